@@ -27,6 +27,11 @@ func genCleanOp(t *rapid.T, compact, retention bool) clOp {
 	if compact {
 		op.Workers = rapid.SampledFrom([]int{1, 2, 4, 10}).Draw(t, "workers")
 	}
+	if retention && !compact && rapid.IntRange(0, 5).Draw(t, "fault") == 0 {
+		// an earlier cleaning cycle in which one segment could not be deleted
+		op.Fault = rapid.IntRange(1, 6).Draw(t, "victim")
+		return op
+	}
 	if op.AgeCut >= 0 && rapid.IntRange(0, 2).Draw(t, "during") == 0 {
 		// messages appended while the clean is running (may roll a segment)
 		op.Msgs = genBatch(t, compact, 4)
